@@ -11,7 +11,9 @@ import os, sys, json, tempfile, shutil, subprocess, time
 import vlib
 import walker_lib as wl
 
-THEOREMS = ['C17_reference_walk']
+THEOREMS = ['C17_reference_walk', 'C17_exactly_once', 'C17_parent_first', 'C17_no_descent', 'C17_no_descent_ancestors',
+            'C17_step_decreases', 'C17_terminates', 'C17_no_stuck', 'C17_end_of_stream', 'C17_some_run_finishes',
+            'C17_error_surfaces', 'C17_no_spurious_error', 'C17_counter_invariant', 'C17_no_panic']
 
 THREADS = [1, 2, 4, 16]
 WATCHDOG_S = 60
@@ -127,11 +129,11 @@ def gen_cases(run, tier):
     cases.append(Case('unreadable-dir-busy', None, longchain={'siblings': [('w%d' % i, wl.gen_wide(600)) for i in range(4)]}, slow=(100, 1000)))
     cases.append(Case('unreadable-dir-doer', None, longchain={'siblings': [('w', wl.gen_wide(1500))]}, mode='G', threads=[1, 4, 16]))
     # random trees
-    n_rand = 30 if quick else 400
+    n_rand = 100 if quick else 500
     for i in range(n_rand):
         mode = 'G' if i % 4 == 3 else 'W'
         t = wl.gen_random(rng, mode, max_depth=rng.choice([2, 3, 5]), max_breadth=rng.choice([3, 5, 9]), p_err=0.3 if i % 5 == 4 else 0.0)
-        cases.append(Case('random', t, mode=mode, threads=THREADS if not quick else [rng.choice([1, 2]), rng.choice([4, 16])],
+        cases.append(Case('random', t, mode=mode, threads=THREADS if not quick else [rng.choice([1, 2]), 4, 16],
                           reps=1 if quick else 2))
     if not quick:
         cases.append(Case('wide-20000', wl.gen_wide(20000, n_dirs=50, per_dir=10), slow=(1000, 500)))
